@@ -50,11 +50,11 @@ fn panic_violation(ctx: &mut Ctx, entry: &str, p: &Panicked, replay: vq_util::Va
 // varints
 
 pub fn check_varint_bytes(ctx: &mut Ctx, b: &[u8]) -> u64 {
-    let replay = json!({"check": "codec", "kind": "varint", "hex": hex(b)});
+    let replay = || json!({"check": "codec", "kind": "varint", "hex": hex(b)});
     let got = match s2n::varint_decode(b) {
         Ok(g) => g,
         Err(p) => {
-            panic_violation(ctx, "varint-decode", &p, replay);
+            panic_violation(ctx, "varint-decode", &p, replay());
             return 0;
         }
     };
@@ -73,7 +73,7 @@ pub fn check_varint_bytes(ctx: &mut Ctx, b: &[u8]) -> u64 {
                         g.value,
                         g.consumed
                     ),
-                    replay,
+                    replay(),
                 );
             }
             1 + *l as u64
@@ -87,7 +87,7 @@ pub fn check_varint_bytes(ctx: &mut Ctx, b: &[u8]) -> u64 {
                 PROPERTY,
                 "layout:varint:s2n-accepts-truncated".into(),
                 format!("varint {}: s2n accepts, the reference says truncated", hex(b)),
-                replay,
+                replay(),
             );
             0
         }
@@ -96,7 +96,7 @@ pub fn check_varint_bytes(ctx: &mut Ctx, b: &[u8]) -> u64 {
                 PROPERTY,
                 "layout:varint:s2n-rejects-valid".into(),
                 format!("varint {}: s2n rejects a complete varint", hex(b)),
-                replay,
+                replay(),
             );
             0
         }
@@ -104,11 +104,11 @@ pub fn check_varint_bytes(ctx: &mut Ctx, b: &[u8]) -> u64 {
 }
 
 pub fn check_varint_value(ctx: &mut Ctx, v: u64) {
-    let replay = json!({"check": "codec", "kind": "varint-value", "value": v});
+    let replay = || json!({"check": "codec", "kind": "varint-value", "value": v});
     let e = match s2n::varint_encode(v) {
         Ok(e) => e,
         Err(p) => {
-            panic_violation(ctx, "varint-encode", &p, replay);
+            panic_violation(ctx, "varint-encode", &p, replay());
             return;
         }
     };
@@ -119,7 +119,7 @@ pub fn check_varint_value(ctx: &mut Ctx, v: u64) {
                     PROPERTY,
                     "roundtrip:varint:constructor-rejects-valid".into(),
                     format!("VarInt::new({v}) failed"),
-                    replay,
+                    replay(),
                 );
             } else {
                 ctx.sum.count("varint_value_out_of_range_refused", 1);
@@ -131,7 +131,7 @@ pub fn check_varint_value(ctx: &mut Ctx, v: u64) {
                     PROPERTY,
                     "roundtrip:varint:constructor-accepts-out-of-range".into(),
                     format!("VarInt::new({v}) succeeded"),
-                    replay,
+                    replay(),
                 );
                 return;
             }
@@ -147,7 +147,7 @@ pub fn check_varint_value(ctx: &mut Ctx, v: u64) {
                         e.announced,
                         e.bytes.len()
                     ),
-                    replay,
+                    replay(),
                 );
             } else if e.bytes != want {
                 let sig = if e.bytes.len() != want.len() {
@@ -163,14 +163,14 @@ pub fn check_varint_value(ctx: &mut Ctx, v: u64) {
                         hex(&e.bytes),
                         hex(&want)
                     ),
-                    replay,
+                    replay(),
                 );
             } else if !e.exact_fit_ok {
                 ctx.violation(
                     PROPERTY,
                     "roundtrip:exact-fit:varint".into(),
                     format!("VarInt({v}): encoding into an exactly sized buffer differs or writes out of bounds"),
-                    replay,
+                    replay(),
                 );
             }
             if let Some(i) = gen::edge_index(v) {
@@ -231,12 +231,12 @@ pub struct FrameOutcome {
 
 /// (T)+(L)+(R) for one byte string interpreted as a packet payload.
 pub fn check_frames(ctx: &mut Ctx, b: &[u8], class: &str) -> FrameOutcome {
-    let replay = json!({"check": "codec", "kind": "frames", "class": class, "hex": hex(b)});
+    let replay = || json!({"check": "codec", "kind": "frames", "class": class, "hex": hex(b)});
     let mut outcome = FrameOutcome::default();
     let got = match s2n::decode_frames(b, true) {
         Ok(g) => g,
         Err(p) => {
-            panic_violation(ctx, "frame-decode", &p, replay);
+            panic_violation(ctx, "frame-decode", &p, replay());
             return outcome;
         }
     };
@@ -245,7 +245,7 @@ pub fn check_frames(ctx: &mut Ctx, b: &[u8], class: &str) -> FrameOutcome {
             PROPERTY,
             "no-progress:frame-decode".into(),
             format!("decoding {} as frames returned Ok without consuming input: the payload loop never ends", hex(b)),
-            replay.clone(),
+            replay(),
         );
         return outcome;
     }
@@ -291,7 +291,7 @@ pub fn check_frames(ctx: &mut Ctx, b: &[u8], class: &str) -> FrameOutcome {
                             g.frame,
                             r.frame
                         ),
-                        replay.clone(),
+                        replay(),
                     );
                     return outcome;
                 }
@@ -305,7 +305,7 @@ pub fn check_frames(ctx: &mut Ctx, b: &[u8], class: &str) -> FrameOutcome {
                             g.end,
                             r.end
                         ),
-                        replay.clone(),
+                        replay(),
                     );
                     return outcome;
                 }
@@ -323,7 +323,7 @@ pub fn check_frames(ctx: &mut Ctx, b: &[u8], class: &str) -> FrameOutcome {
                             g.announced,
                             g.reencoded.len()
                         ),
-                        replay.clone(),
+                        replay(),
                     );
                     return outcome;
                 }
@@ -332,7 +332,7 @@ pub fn check_frames(ctx: &mut Ctx, b: &[u8], class: &str) -> FrameOutcome {
                         PROPERTY,
                         format!("roundtrip:exact-fit:{name}"),
                         format!("{:?}: encoding into an exactly sized buffer differs or writes out of bounds", g.frame),
-                        replay.clone(),
+                        replay(),
                     );
                     return outcome;
                 }
@@ -361,7 +361,7 @@ pub fn check_frames(ctx: &mut Ctx, b: &[u8], class: &str) -> FrameOutcome {
                             hex(&g.reencoded),
                             hex(&canonical)
                         ),
-                        replay.clone(),
+                        replay(),
                     );
                     return outcome;
                 }
@@ -377,7 +377,7 @@ pub fn check_frames(ctx: &mut Ctx, b: &[u8], class: &str) -> FrameOutcome {
                         PROPERTY,
                         format!("layout:consumed-mismatch:{}", r.frame.name()),
                         format!("{}: s2n finished after {} frames, the reference sees more", hex(b), i),
-                        replay.clone(),
+                        replay(),
                     );
                     return outcome;
                 }
@@ -397,7 +397,7 @@ pub fn check_frames(ctx: &mut Ctx, b: &[u8], class: &str) -> FrameOutcome {
                             got.error,
                             r.frame
                         ),
-                        replay.clone(),
+                        replay(),
                     );
                 }
                 return outcome;
@@ -418,7 +418,7 @@ pub fn check_frames(ctx: &mut Ctx, b: &[u8], class: &str) -> FrameOutcome {
                         g.frame,
                         want_err
                     ),
-                    replay.clone(),
+                    replay(),
                 );
                 return outcome;
             }
@@ -442,7 +442,7 @@ pub fn check_frames(ctx: &mut Ctx, b: &[u8], class: &str) -> FrameOutcome {
                             PROPERTY,
                             "layout:s2n-rejects-valid:end".into(),
                             format!("{}: s2n fails with {e} at the end of a payload the reference accepts", hex(b)),
-                            replay.clone(),
+                            replay(),
                         );
                     }
                     (None, Some(e)) => {
@@ -450,7 +450,7 @@ pub fn check_frames(ctx: &mut Ctx, b: &[u8], class: &str) -> FrameOutcome {
                             PROPERTY,
                             "layout:s2n-accepts-invalid:end".into(),
                             format!("{}: s2n consumed everything, the reference says {e:?}", hex(b)),
-                            replay.clone(),
+                            replay(),
                         );
                     }
                 }
@@ -468,7 +468,7 @@ pub fn check_frame_value(ctx: &mut Ctx, f: &Frame) {
     let name = f.name();
     let mut canonical = Vec::new();
     w::put_frame(&mut canonical, &f);
-    let replay = json!({"check": "codec", "kind": "frame-value", "hex": hex(&canonical)});
+    let replay = || json!({"check": "codec", "kind": "frame-value", "hex": hex(&canonical)});
     let e = match s2n::encode_frame_value(&f) {
         Ok(Some(e)) => e,
         Ok(None) => {
@@ -476,7 +476,7 @@ pub fn check_frame_value(ctx: &mut Ctx, f: &Frame) {
             return;
         }
         Err(p) => {
-            panic_violation(ctx, "frame-encode", &p, replay);
+            panic_violation(ctx, "frame-encode", &p, replay());
             return;
         }
     };
@@ -491,7 +491,7 @@ pub fn check_frame_value(ctx: &mut Ctx, f: &Frame) {
                 e.announced,
                 e.bytes.len()
             ),
-            replay,
+            replay(),
         );
         return;
     }
@@ -500,7 +500,7 @@ pub fn check_frame_value(ctx: &mut Ctx, f: &Frame) {
             PROPERTY,
             format!("roundtrip:exact-fit:{name}"),
             format!("{f:?}: encoding into an exactly sized buffer differs or writes out of bounds"),
-            replay,
+            replay(),
         );
         return;
     }
@@ -521,7 +521,7 @@ pub fn check_frame_value(ctx: &mut Ctx, f: &Frame) {
                 hex(&e.bytes),
                 hex(&canonical)
             ),
-            replay,
+            replay(),
         );
         return;
     }
@@ -544,11 +544,11 @@ pub fn check_frame_value(ctx: &mut Ctx, f: &Frame) {
                         d.frames.iter().map(|x| &x.frame).collect::<Vec<_>>(),
                         d.error
                     ),
-                    replay,
+                    replay(),
                 );
             }
         }
-        Err(p) => panic_violation(ctx, "frame-decode", &p, replay),
+        Err(p) => panic_violation(ctx, "frame-decode", &p, replay()),
     }
 }
 
@@ -609,7 +609,7 @@ pub struct HeaderOutcome {
 
 pub fn check_datagram(ctx: &mut Ctx, h: &HeaderInput) -> HeaderOutcome {
     let b = &h.bytes;
-    let replay = json!({"check": "codec", "kind": "datagram", "hex": hex(b),
+    let replay = || json!({"check": "codec", "kind": "datagram", "hex": hex(b),
         "short_dcid_len": h.short_dcid_len, "largest": h.largest});
     let mut outcome = HeaderOutcome {
         first: b.first().copied().unwrap_or(0) >> 4,
@@ -618,7 +618,7 @@ pub fn check_datagram(ctx: &mut Ctx, h: &HeaderInput) -> HeaderOutcome {
     let got = match s2n::decode_datagram(b, h.short_dcid_len, h.largest) {
         Ok(g) => g,
         Err(p) => {
-            panic_violation(ctx, "packet-decode", &p, replay);
+            panic_violation(ctx, "packet-decode", &p, replay());
             return outcome;
         }
     };
@@ -627,7 +627,7 @@ pub fn check_datagram(ctx: &mut Ctx, h: &HeaderInput) -> HeaderOutcome {
             PROPERTY,
             "no-progress:packet-decode".into(),
             format!("decoding {} as packets returned Ok without consuming input", hex(b)),
-            replay,
+            replay(),
         );
         return outcome;
     }
@@ -713,7 +713,7 @@ pub fn check_datagram(ctx: &mut Ctx, h: &HeaderInput) -> HeaderOutcome {
                             g,
                             r.header
                         ),
-                        replay.clone(),
+                        replay(),
                     );
                     return outcome;
                 }
@@ -727,7 +727,7 @@ pub fn check_datagram(ctx: &mut Ctx, h: &HeaderInput) -> HeaderOutcome {
                             g.end,
                             r.end
                         ),
-                        replay.clone(),
+                        replay(),
                     );
                     return outcome;
                 }
@@ -753,7 +753,7 @@ pub fn check_datagram(ctx: &mut Ctx, h: &HeaderInput) -> HeaderOutcome {
                                     PROPERTY,
                                     "layout:unprotect-rejects-valid".into(),
                                     format!("packet #{i} of {}: unprotect fails ({e}) although {room} bytes follow the header", hex(b)),
-                                    replay.clone(),
+                                    replay(),
                                 );
                                 return outcome;
                             }
@@ -770,7 +770,7 @@ pub fn check_datagram(ctx: &mut Ctx, h: &HeaderInput) -> HeaderOutcome {
                                     PROPERTY,
                                     "layout:decrypt-rejects-valid".into(),
                                     format!("packet #{i} of {}: null-cipher decrypt fails ({why}) with reserved bits clear", hex(b)),
-                                    replay.clone(),
+                                    replay(),
                                 );
                                 return outcome;
                             }
@@ -787,7 +787,7 @@ pub fn check_datagram(ctx: &mut Ctx, h: &HeaderInput) -> HeaderOutcome {
                                     PROPERTY,
                                     "layout:unprotect-accepts-short".into(),
                                     format!("packet #{i} of {}: only {room} bytes follow the header", hex(b)),
-                                    replay.clone(),
+                                    replay(),
                                 );
                                 return outcome;
                             }
@@ -809,7 +809,7 @@ pub fn check_datagram(ctx: &mut Ctx, h: &HeaderInput) -> HeaderOutcome {
                                         hex(b),
                                         h.largest
                                     ),
-                                    replay.clone(),
+                                    replay(),
                                 );
                                 return outcome;
                             }
@@ -825,7 +825,7 @@ pub fn check_datagram(ctx: &mut Ctx, h: &HeaderInput) -> HeaderOutcome {
                                         hex(b),
                                         pn_offset - r.start + pn_len
                                     ),
-                                    replay.clone(),
+                                    replay(),
                                 );
                                 return outcome;
                             }
@@ -852,7 +852,7 @@ pub fn check_datagram(ctx: &mut Ctx, h: &HeaderInput) -> HeaderOutcome {
                         PROPERTY,
                         "layout:header-length-mismatch".into(),
                         format!("{}: s2n finished after {i} packets, the reference sees more", hex(b)),
-                        replay.clone(),
+                        replay(),
                     );
                     return outcome;
                 }
@@ -869,7 +869,7 @@ pub fn check_datagram(ctx: &mut Ctx, h: &HeaderInput) -> HeaderOutcome {
                             got.error,
                             r.header
                         ),
-                        replay.clone(),
+                        replay(),
                     );
                 }
                 return outcome;
@@ -884,7 +884,7 @@ pub fn check_datagram(ctx: &mut Ctx, h: &HeaderInput) -> HeaderOutcome {
                         g,
                         want_err
                     ),
-                    replay.clone(),
+                    replay(),
                 );
                 return outcome;
             }
@@ -899,13 +899,13 @@ pub fn check_datagram(ctx: &mut Ctx, h: &HeaderInput) -> HeaderOutcome {
                         PROPERTY,
                         "layout:s2n-rejects-valid:packet".into(),
                         format!("{}: s2n fails with {e} where the reference is done", hex(b)),
-                        replay.clone(),
+                        replay(),
                     ),
                     (None, Some(e)) => ctx.violation(
                         PROPERTY,
                         "layout:s2n-accepts-invalid:packet".into(),
                         format!("{}: s2n is done where the reference says {e:?}", hex(b)),
-                        replay.clone(),
+                        replay(),
                     ),
                 }
                 return outcome;
@@ -917,7 +917,7 @@ pub fn check_datagram(ctx: &mut Ctx, h: &HeaderInput) -> HeaderOutcome {
 
 /// s2n's packet encoders against the reference header parser.
 pub fn check_packet_encoder(ctx: &mut Ctx, s: &s2n::PacketSpec) {
-    let replay = json!({"check": "codec", "kind": "packet-encode",
+    let replay = || json!({"check": "codec", "kind": "packet-encode",
         "spec": {"kind": format!("{:?}", s.kind), "version": s.version, "dcid": hex(&s.dcid),
                  "scid": hex(&s.scid), "token": hex(&s.token), "pn": s.pn,
                  "largest_acked": s.largest_acked, "payload": hex(&s.payload), "tag": s.tag,
@@ -929,7 +929,7 @@ pub fn check_packet_encoder(ctx: &mut Ctx, s: &s2n::PacketSpec) {
             return;
         }
         Err(p) => {
-            panic_violation(ctx, "packet-encode", &p, replay);
+            panic_violation(ctx, "packet-encode", &p, replay());
             return;
         }
     };
@@ -943,7 +943,7 @@ pub fn check_packet_encoder(ctx: &mut Ctx, s: &s2n::PacketSpec) {
             PROPERTY,
             format!("layout:packet-encoder:{what}"),
             format!("{:?} encoded as {}: {detail}", s.kind, hex(&bytes)),
-            replay.clone(),
+            replay(),
         );
     };
     let parsed = match parsed {
@@ -1049,7 +1049,7 @@ pub fn check_packet_encoder(ctx: &mut Ctx, s: &s2n::PacketSpec) {
             PROPERTY,
             "roundtrip:packet".into(),
             format!("{:?}: the s2n decoder does not accept what the s2n encoder wrote: {}", s.kind, hex(&h.bytes)),
-            replay,
+            replay(),
         );
     }
 }
@@ -1098,11 +1098,11 @@ pub fn tp_block_is_shortest_form(block: &[u8]) -> bool {
 }
 
 pub fn check_tp_bytes(ctx: &mut Ctx, b: &[u8], role: w::tp::Role) -> bool {
-    let replay = json!({"check": "codec", "kind": "tp", "hex": hex(b),
+    let replay = || json!({"check": "codec", "kind": "tp", "hex": hex(b),
         "role": if role == w::tp::Role::Client { "client" } else { "server" }});
     match s2n::tp_decode(b, role) {
         Err(p) => {
-            panic_violation(ctx, "tp-decode", &p, replay);
+            panic_violation(ctx, "tp-decode", &p, replay());
             false
         }
         Ok(Err(_)) => {
@@ -1116,21 +1116,21 @@ pub fn check_tp_bytes(ctx: &mut Ctx, b: &[u8], role: w::tp::Role) -> bool {
                     PROPERTY,
                     "roundtrip:size:transport-parameters".into(),
                     format!("{}: encoding_size()={} but {} bytes written", hex(b), v.announced, v.reencoded.len()),
-                    replay,
+                    replay(),
                 );
             } else if !v.stable {
                 ctx.violation(
                     PROPERTY,
                     "roundtrip:value:transport-parameters".into(),
                     format!("{}: decode(encode(decode(b))) differs from decode(b); re-encoded {}", hex(b), hex(&v.reencoded)),
-                    replay,
+                    replay(),
                 );
             } else if !tp_block_is_shortest_form(&v.reencoded) {
                 ctx.violation(
                     PROPERTY,
                     "encoder:non-minimal-varint:transport-parameters".into(),
                     format!("{}: re-encoded block {} is malformed or uses non-minimal varints", hex(b), hex(&v.reencoded)),
-                    replay,
+                    replay(),
                 );
             }
             true
@@ -1281,7 +1281,7 @@ pub fn one(ctx: &mut Ctx, seed: u64, index: u64) {
         93..=95 => 12,
         _ => 13,
     };
-    ctx.set_current(|| format!("class={} seed={seed} index={index}", CLASSES[class]));
+    ctx.set_current(CLASSES[class]);
     ctx.sum.evaluations += 1;
     ctx.sum.count(&format!("inputs:{}", CLASSES[class]), 1);
     match class {
